@@ -7,6 +7,7 @@ import (
 	"strconv"
 
 	"github.com/scrapli/scrapligo/util"
+	"github.com/scrapli/scrapligo/util/simhook"
 )
 
 const (
@@ -53,6 +54,8 @@ func (d *Driver) getServerCapabilities() ([]byte, error) {
 	defer cancel()
 
 	go func() {
+		simhook.Enter("nc.caps")
+
 		defer close(cr)
 
 		b, err := d.Channel.ReadUntilPrompt(ctx)
